@@ -259,7 +259,7 @@ class Driver:
 
 class I2CSub(Sub):
     name = "initiator"
-    budget = {"quick": 3000, "thorough": 40000}
+    budget = {"quick": 5000, "thorough": 80000}
     rule = ("1..2 I2C messages (START, address, 0..3 data writes or reads, optional repeated START + second segment, "
             "STOP) on 13 configurations (period_cyc 4..40, clk_stretch on/off, open-drain or push-pull SCL) against an "
             "autonomous target BFM (ACK/NAK choices, read data, SCL held low 0..30 cycles after falling edges, SDA "
@@ -297,7 +297,7 @@ class I2CSub(Sub):
         ops, acks, txbytes = build_ops(case)
         drv = Driver(case, ops, acks, txbytes, stretch_ok)
         quarter = period // 4 + 4
-        budget = 200 + len(ops) * (40 * quarter + 9 * (max(case["stretch"]) + 2)) + sum(case["delays"]) * len(ops)
+        budget = 300 + len(ops) * (48 * quarter + 11 * (max(case["stretch"]) + 3)) + (max(case["delays"]) + 2) * len(ops)
         trace = self.harness(ci).run_driver(drv, budget)
         cfg = f"period_cyc={period} clk_stretch={stretch_ok} scl={'push-pull' if pushpull else 'open-drain'}"
         if drv.ust != "done":
